@@ -1,5 +1,6 @@
 import RimeModel.Basic.Hex
 import RimeModel.C06.Compile
+import RimeModel.C06.Layout
 /-! line protocol for C06 (see checks/C06.py):
   case <name> / sort <original|by_weight> / file <textcol> <codecol> <weightcol> <hex body> ... / run
 → case <name> / syl <id> <hex> / e <index ids> <extra ids|-> <texthex> <weight> / r <keyhex> <valhex> / end <name>
@@ -31,6 +32,8 @@ def runCase (st : St) (out : IO.FS.Stream) : IO Unit := do
       for (s, i) in syl.zipIdx do
         out.putStrLn s!"syl {i} {Hex.encode s}"
       let t := compileTable (if st.original then id else sortHomophones) modelWeight c
+      out.putStrLn s!"sizes {szMetadata} {szHeadNode} {szTrunkNode} {szLongEntry} {szEntry} {szStringType} {szSyllableId} {alEntry}"
+      out.putStrLn s!"layout {indexEnd t} {indexSize t} {estimatedFileSize t c.entries.length}"
       for it in enumerateRaw t do
         out.putStrLn s!"e {ids it.index} {ids it.extra} {Hex.encode it.text} {it.weight.show}"
       let rev := compileReverse modelWeight c
